@@ -58,6 +58,7 @@ Act(e) ==
     [] e.act = "WRename" -> WRename(e.actor)
     [] e.act = "WReturn" -> WReturn(e.actor)
     [] e.act = "WCrash"  -> WCrash(e.actor)
+    [] e.act = "WFail"   -> WFailCleanup(e.actor)
     [] e.act = "RBegin"  -> RBegin(e.actor, e.arg)
     [] e.act = "ROpen"   -> ROpen(e.actor) /\ Has(e, "res") /\ e.res = J(e, ExpectedAtOpen(e.actor))
     [] e.act = "RRead"   -> RRead(e.actor)
